@@ -73,9 +73,12 @@ MANIFEST_TEXT = ('Exhaustive enumeration of genomes of 1..3 (quick) / 1..4 (thor
                  '+-strand), BinnedGenome.count, Geometry.get_mask/get_pileup/clip/extend_to_size/merge_intervals/sort/'
                  'jaccard, and GlobalOffset local<->global on every position and every interval of every genome up to 4 '
                  'chromosomes. Oracle: result restricted to chromosome c == same operation on a one-chromosome genome with '
-                 'only c\'s entries == dense single-contig model. quick: all 1- and 2-chromosome genomes, 6 name orders '
-                 'of 3 chromosomes; thorough: all 24 orders of 3 chromosomes, and 4-chromosome genomes with the four '
-                 'boundary sets.')
+                 'only c\'s entries == dense single-contig model. quick: all 1-chromosome genomes (every operation x argument); '
+                 'all 12 ordered 2-chromosome name pairs (2 with the full menu and every operation, 10 with the 4-set menu and '
+                 'the operations that work in concatenated coordinates); 2 name orders of 3 chromosomes (4-set menu) plus one '
+                 'seed-rotated further order. thorough: all 2-chromosome pairs with the full menu, every operation x argument '
+                 'and 4 strand patterns; all 24 orders of 3 chromosomes (2 with the full menu, 22 with none/whole/last base), '
+                 'one order with every operation x argument; one 4-chromosome order (none/whole/last base), both filter modes.')
 MANIFEST_NOTE = ('Trusted: NumPy, npstructures run-length arrays (observed via to_array / ravel / to_dict), CPython, '
                  'engine/observe.py, models/intervals.py + models/genome_multi.py (plain per-base Python). Sizes above 3 '
                  'and more than two intervals per chromosome are not explored.')
@@ -112,11 +115,11 @@ def genome_list(tier, seed):
         for p in pairs:
             out.append((p, 'full', 'full', None))
         for t in triples:
-            out.append((t, 'full' if t in TRIPLES_PRIMARY else 'small', 'thin', None))
+            out.append((t, 'full' if t in TRIPLES_PRIMARY else 'tiny', 'thin', None))
         for t in TRIPLES_FULLPLAN:
-            out.append((t, 'small', 'full', None))
+            out.append((t, 'tiny', 'full', None))
         for q in QUADS:
-            out.append((q, 'small', 'thin', None))
+            out.append((q, 'tiny', 'thin', None))
     return out
 
 
@@ -124,7 +127,7 @@ def bounds(tier, seed):
     common = {'names': list(M.NAME_MENU), 'sizes': list(SIZES),
               'filter_modes': 'keep-all always; ignore-underscore too when a "_" name is present',
               'menus': {'full': 'none / first base / whole / last base / two touching / two nested (3,6,6 sets for size 1,2,3)',
-                        'small': 'none / first base / whole / last base'},
+                        'small': 'none / first base / whole / last base', 'tiny': 'none / whole / last base'},
               'set_combinations': 'every combination over the chromosomes, every size tuple',
               'orders': ['genome', 'reversed (operations that do not need sorted input)'],
               'merge_distance': [0, 1, 2], 'extend_length': [1, 2, 3, 4], 'flank': [0, 1, 2], 'window_size': [1, 2, 3],
@@ -151,7 +154,7 @@ def _modes(names):
 
 
 def _n_cases(names, menu, first_size):
-    f = M.set_menu if menu == 'full' else M.small_menu
+    f = M.MENUS[menu]
     per = sum(len(f(s)) for s in SIZES)
     first = per if first_size is None else len(f(first_size))
     return first * (per ** (len(names) - 1)) * len(_modes(names))
@@ -913,6 +916,22 @@ def check_offsets(res, names, sizes, mode, scratch, with_file):
         if not inc:
             res.outcome('offsets:no-included-chromosome')
             return
+        # per-chromosome extraction by NAME (prefix names must not be confused): track[name] == that chromosome's values
+        from bionumpy.datatypes import BedGraph
+        genome = bnp.Genome.from_dict(d) if mode == 'keepall' else bnp.Genome.from_dict(d, filter_function=ignore_underscores)
+        vals = {n: M.distinct_values(n, s) for n, s in zip(names, sizes)}
+        rows = [(n, p, v) for n in inc for p, v in enumerate(vals[n])]
+        track = genome.get_track(BedGraph([r[0] for r in rows], np.array([r[1] for r in rows], dtype=int),
+                                          np.array([r[1] + 1 for r in rows], dtype=int),
+                                          np.array([r[2] for r in rows], dtype=int)))
+        got = {n: [int(x) for x in np.asarray(track[n].to_array()).tolist()] for n in inc}
+        whole = obs_track_dict(track.to_dict())
+        res.transitions += 2 + len(inc)
+        if got != {n: vals[n] for n in inc} or whole != got:
+            res.fail('genome-layout', dict(case, what='track-by-name'), dict(feats, what='track-by-name'),
+                     expected={n: vals[n] for n in inc}, observed={'by_name': got, 'to_dict': whole})
+            res.outcome('layout:track-by-name-differs')
+            return
         gc = list(ctxs.values())[0]
         go = gc.global_offset
         # every valid position, local -> global -> local
@@ -972,7 +991,7 @@ def check_offsets(res, names, sizes, mode, scratch, with_file):
 # shard runner
 # =====================================================================================================
 def _case_iter(names, menu, first_size=None):
-    f = M.set_menu if menu == 'full' else M.small_menu
+    f = M.MENUS[menu]
     for mode in _modes(names):
         for sizes in itertools.product(SIZES, repeat=len(names)):
             if first_size is not None and sizes[0] != first_size:
